@@ -90,6 +90,13 @@ func (t tcpServer) Reset() {
 	t.TCPConn.Close()
 }
 
+// nativeHandlerPanic is what a scripted handler panic throws (Attempt.PanicAt).
+type nativeHandlerPanic struct{}
+
+// NoResidueCheck: several Runs share the process (pair mode of the race pass):
+// the goroutines of the other run would be taken for residue.
+var NoResidueCheck bool
+
 // UseTCP makes Run serve the master over a real loopback TCP socket and lets
 // the driver use its standard dialer (binding of the in-memory network model
 // to real sockets). Set once before the first Run.
@@ -230,11 +237,13 @@ func Run(sc *e1.Scenario) Outcome {
 				if at.BlockErr {
 					res = errors.New("handler gave up after cancellation")
 				}
+			case at.PanicAt > 0 && k == at.PanicAt-1:
+				panic(nativeHandlerPanic{})
 			case k == at.FailAt:
-				res = errors.New("scripted handler failure")
+				res = e1.HandlerError(at.FailWith)
 			}
 			if at.HandlerMode == "scribble" && res == nil {
-				hx.Scribble(tx)
+				hx.Wipe(tx)
 			}
 			if res == nil {
 				accepted++
@@ -314,7 +323,17 @@ func Run(sc *e1.Scenario) Outcome {
 		done := make(chan struct{})
 		go func() {
 			defer close(done)
-			serr = st.Stream(ctx, handler)
+			func() {
+				defer func() {
+					if p := recover(); p != nil {
+						if _, ok := p.(nativeHandlerPanic); !ok {
+							panic(p)
+						}
+						serr = errors.New("the handler panicked; the caller of Stream recovered")
+					}
+				}()
+				serr = st.Stream(ctx, handler)
+			}()
 			returned.Store(true)
 			e1v = st.Error()
 			nerr.Store(1)
@@ -339,7 +358,7 @@ func Run(sc *e1.Scenario) Outcome {
 	}
 	// residue: library goroutines must be gone within bounded time
 	deadline := time.Now().Add(10 * time.Second)
-	for {
+	for !NoResidueCheck {
 		if !libGoroutines() {
 			break
 		}
